@@ -290,6 +290,17 @@ def optToList {α : Type} : Option α → List α
   | none => []
   | some a => [a]
 
+/-- `d.buf[0]&224 == 32` in `Decoder.Write`: the representation about to be parsed is a dynamic
+table size update (first byte `001xxxxx`; same test as in `parseAction`). -/
+def isSizeUpdate : Bytes → Bool
+  | [] => false
+  | b :: _ => b / 32 == 1
+
+/-- `if !isSizeUpdate { d.firstField = false }`: a table size update does not end the beginning of
+the header block (RFC 7541 §4.2 allows several there); any other representation does. -/
+def afterRepr (buf : Bytes) (d : DecCore) : DecCore :=
+  if isSizeUpdate buf then d else { d with firstField := false }
+
 /-- The `for len(d.buf) > 0` loop of `Decoder.Write`. `paranoia = true` is the code as it is;
 `false` drops the saveBuf bound (used to state what the bound breaks). `fuel` bounds the number of
 iterations (`buf.length + 1` suffices: `Proofs.C02.writeLoop_fuel`). -/
@@ -301,10 +312,10 @@ def writeLoop (paranoia : Bool) : Nat → DecCore → Bytes → List Field → D
       | .needMore =>
         if paranoia ∧ d.maxStrLen ≠ 0 ∧ buf.length > paranoiaBound d.maxStrLen then (d, em, .err .strLenParanoia)
         else (d, em, .saved buf)
-      | .err e d' => ({ d' with firstField := false }, em, .err e)
+      | .err e d' => (afterRepr buf d', em, .err e)
       | .ok d' rest e =>
         if rest.length < buf.length then
-          writeLoop paranoia fuel { d' with firstField := false } rest (em ++ optToList e)
+          writeLoop paranoia fuel (afterRepr buf d') rest (em ++ optToList e)
         else (d', em, .err .internal)
 
 /-- Result of a public call: new state, fields emitted by the call, error if any. -/
